@@ -34,6 +34,9 @@ void vt_cover(bool condition, const char* name);
 // from the replay file, so that ASan sees the same bound).
 std::uint8_t* vt_alloc_bytes(std::size_t n);
 void vt_free_bytes(std::uint8_t* p);
+// Is p inside the n-byte object starting at base?  (CBMC: same object and offset range, without comparing pointers
+// into different objects; native: address range.)
+bool vt_within(const void* p, const void* base, std::size_t n);
 }
 
 namespace vt {
